@@ -113,7 +113,7 @@ func init() {
 }
 
 // a fixed pool of payload pointers per capsule type, so that pointer identity is meaningful
-var capPayloads [2][6]*capPayload
+var capPayloads [2][12]*capPayload
 
 func (t *TDesc) Cty() cty.Type {
 	if t.cached != nil {
